@@ -1344,7 +1344,7 @@ impl Machine {
                         continue;
                     }
                     let max_idx = len.saturating_sub(1);
-                    let index_int = if !index_val.is_finite() {
+                    let index_int = if index_val.is_nan() {
                         0
                     } else {
                         let raw_idx = index_val as i64;
@@ -1370,7 +1370,7 @@ impl Machine {
                         continue;
                     }
                     let max_idx = len.saturating_sub(1);
-                    let index_int = if !index_val.is_finite() {
+                    let index_int = if index_val.is_nan() {
                         0
                     } else {
                         let raw_idx = index_val as i64;
